@@ -34,6 +34,7 @@ SIDECARS = {
     'tbrmmdesign': 'mmverif.contracts.clients_spec',
     'tbrdiagnostics': 'mmverif.contracts.tbrdiag_spec',
     'tbr_iroas': 'mmverif.contracts.tbrdiag_spec',
+    'tbr': 'mmverif.contracts.tbr_spec',
 }
 
 CACHE_DIR = os.path.join(common.VERIF, '.cache', 'obl')
